@@ -24,6 +24,8 @@ Checking requests (`<op> <args…> => <implementation output>`, answered `model=
                                            placeholders and WriteAt back-patches straddle the 64 KiB page boundary) ≡
                                            Model/RecordWriterPaged.writeSetV2Paged with the extracted pageSize; also
                                            checks the statement of Props/C05 recordset_write_paged_spec on the instance
+  pwset2c <pre> <codec> <now> <recs> <plainhex> => <hex>   the same with a compressor installed (writeSetV2PagedC; the
+                                           compressor's bytes are taken from the implementation, as for wmodel2c)
   pbuf <ops,…> => <digests,…>              sequences of Write / WriteAt / ReadAt / scan / Truncate / ref+ReadAt on the real
                                            pageBuffer (export hook) against Model/PageBuffer with the extracted pageSize
   ptrace <a|r<id>|f<id>|u<id>,…> => ok <n>   the page-event trace recorded by the hooks in protocol/buffer.go during a
@@ -282,6 +284,27 @@ def step (line : String) : String :=
           s!"model={h} holds={if h == impl && thm then 1 else 0}"
         | _, _ => s!"model=error holds={if impl == "error" then 1 else 0}"
       | _, _, _, _ => "bad-op"
+    | ["pwset2c", pre, attrs, now, recs, plain] =>
+      -- compressed: the compressor's output is read off the implementation's bytes (after the 16 bytes of old content,
+      -- the 4-byte size and the 61-byte header), written into the model's buffer as ONE chunk; the harness-decompressed
+      -- payload must be the model's uncompressed records
+      match pre.toNat?, attrs.toInt?, now.toInt?, (recs.splitOn ";").mapM parseProd, ofHex plain, ofHex impl with
+      | some pre, some attrs, some now, some rs, some plain, some ib =>
+        let P := Gen.RecordConsts.pageSize
+        let prefix_ : Bytes := (List.range pre).map (fun i => (i % 251).toUInt8)
+        let pb := Model.RecordWriter.pagesOf P prefix_
+        let comp := ib.drop ((min pre 16) + 4 + 61)
+        let first := match rs with | [] => 0 | r0 :: _ => Model.RecordWriter.effTime now r0
+        let inner := Model.RecordWriter.recordsV2 now first 0 rs == plain
+        match Model.RecordWriter.writeSetV2PagedC P crcs.castagnoli [comp] attrs now rs pb,
+              Model.RecordWriter.writeV2C crcs.castagnoli (fun _ => comp) attrs now rs with
+        | some pb', some bytes =>
+          let fl := Model.PageBuffer.flat pb'
+          let h := toHex (fl.drop (pre - 16))
+          let thm := fl == prefix_ ++ (RW.u32 bytes.length ++ bytes)
+          s!"model={h} holds={if h == impl && thm && inner then 1 else 0}"
+        | _, _ => s!"model=error holds={if impl == "error" then 1 else 0}"
+      | _, _, _, _, _, _ => "bad-op"
     | ["pbuf", opsText] =>
       let model := match runPbuf Gen.RecordConsts.pageSize (opsText.splitOn ",") ⟨0, []⟩ [] with
         | some ds => if ds.isEmpty then "-" else ",".intercalate ds
